@@ -27,6 +27,10 @@ def canonical_labelings(n, labels="ABC"):
 CTX = [None, "p", "q"]
 
 
+def SC(*a):
+    return R.SCall(*a)
+
+
 def chain_selectors(max_depth, focus=True):
     """f0(c0) > f1(c1) > ... (> v): every canonical labeling, every per-level context capture."""
     for d in range(1, max_depth + 1):
@@ -67,6 +71,19 @@ def sibling_selectors(focus=True, deep=False):
                     s1 = R.SCall(labs[1], (), (t,))
                     s2 = R.SCall(labs[3], (R.cap(fv, fv + "3", focus=focus),), ())
                     yield R.SCall(labs[0], (R.cap("p", "p0"),), (s1, s2))
+
+
+def mid_sibling_selectors(focus=True):
+    """r > m(s1(cap), t(!v)): the sibling calls sit in the parentheses of a link that is not the root and
+    has no variable capture of its own, in both textual orders."""
+    for labs in canonical_labelings(4):
+        for c1 in ("p", "q"):
+            for fv in ("p", "q"):
+                for order in (0, 1):
+                    s1 = SC(labs[2], (R.cap(c1, c1 + "2"),), ())
+                    t = SC(labs[3], (R.cap(fv, fv + "3", focus=focus),), ())
+                    m = SC(labs[1], (), (s1, t) if order == 0 else (t, s1))
+                    yield SC(labs[0], (), (m,))
 
 
 def value_selectors(focus=True):
